@@ -27,11 +27,12 @@ GROUPS: Dict[str, tuple] = {
     "timing": ("c10", ["reamber.algorithms.timing.", "reamber.base.lists.BpmList.BpmList.to_timing_map"]),
     "lists": ("c16", ["reamber.base.lists.TimedList.TimedList.", "reamber.base.lists.notes.HoldList.HoldList.",
                       "reamber.base.Hold.Hold.", "reamber.base.Property."]),
+    "state": ("c14", ["reamber."]),
     "stack": ("c12", ["reamber.base.Map.Map.Stacker", "reamber.base.Map.Map.stack", "reamber.base.MapSet.MapSet.Stacker",
                       "reamber.base.MapSet.MapSet.stack"]),
 }
 # rules of a home module that only make sense at home (whole-property obligations, not facts about shared code)
-HOME_ONLY = {"c16": {"C16.R7"}, "c12": set(), "c10": set()}
+HOME_ONLY = {"c16": set(), "c12": set(), "c10": set(), "c14": {"C14.R1", "C14.R2", "C14.R3"}}
 
 
 def reached_groups(ctx, entries: List[str]) -> Dict[str, List[str]]:
@@ -82,6 +83,16 @@ def _closure(ctx, entries):
                 for q, f in M.funcs.items():
                     if f.cls == k and (whole or (f.name.startswith("__") and f.name.endswith("__"))):
                         clo.add(q)
+        # a class built by one of the Property.py decorators is used through the accessors that decorator generates
+        import ast as _ast
+        for c in {M.funcs[q].cls for q in clo if q in M.funcs and M.funcs[q].cls}:
+            for k in M.mro(c):
+                if k in M.classes:
+                    for d in M.classes[k].node.decorator_list:
+                        f = d.func if isinstance(d, _ast.Call) else d
+                        nm = f.id if isinstance(f, _ast.Name) else getattr(f, "attr", None)
+                        if nm in ("item_props", "list_props", "map_props", "stack_props"):
+                            clo.add(f"reamber.base.Property.{nm}")
         ctx.cache[key] = clo
     return ctx.cache[key]
 
@@ -110,7 +121,10 @@ def dep_insts(ctx, pid: str, entries: List[str], skip_groups=()) -> List[R.Inst]
                 # only obligations about code this property actually reaches: the function that contains the deciding
                 # construct must be in the closure (class-level tables: some function of that file must be)
                 enc = _enclosing(ctx, i.file, i.line) if i.file and i.line else None
-                if enc is not None:
+                if i.reach:
+                    if not any(r in clo for r in i.reach):
+                        continue
+                elif enc is not None:
                     top = enc.split(".<locals>")[0]
                     if enc not in clo and top not in clo:
                         continue
